@@ -85,6 +85,14 @@ def gen_cases(rng, n):
             vdt = rng.choice(dts)
             if vdt == "float16":
                 beta = [b % 1024 for b in beta]
+        if idx % 60 == 57:
+            # more clusters than a one-byte back-pointer can name; the optimum must use clusters above 255
+            K, T, s, form = rng.choice([257, 300]), rng.choice([3, 4]), 0, rng.choice(["float", "vector"])
+            cost = [[5 + rng.randint(0, 3) for _ in range(K)] for _ in range(T)]
+            for i in range(T):
+                cost[i][rng.randint(256, K - 1)] = 0
+            beta = [1] * T if form == "vector" else 1
+            tdt, vdt = "float64", "float64"
         cases.append({"fn": "assign", "cost": cost, "beta": beta, "beta_form": form, "scale": s,
                       "table_dtype": tdt, "vector_dtype": vdt,
                       "big_endian": tdt not in ("int8", "float16") and rng.random() < 0.12,
